@@ -497,7 +497,7 @@ func TestCheck(t *testing.T) {
 	flush()
 
 	// (iii) random strings
-	nrand := r.Pick(150000, 5000000)
+	nrand := r.Pick(150000, 12000000)
 	for i := 0; i < nrand; i++ {
 		n := rng.Intn(48)
 		if i%50 == 0 {
